@@ -169,12 +169,11 @@ def run_query(data, text, shape, this, value=None, extra=None):
 
 def render_message(template, sigma):
     """SHACL-SPARQL 5.3.3: {?var} / {$var} are replaced by the values of the solution / pre-bound variables"""
-    out = template
-    for var, val in sigma.items():
-        if val is None:
-            continue
-        out = re.sub(r"\{[\?\$]%s\}" % re.escape(var), lambda m: str(val), out)
-    return Literal(out)
+    # one pass over the declared template: a value is inserted verbatim, text it brings along is not a placeholder
+    def put(m):
+        val = sigma.get(m.group(1))
+        return m.group(0) if val is None else str(val)
+    return Literal(re.sub(r"\{[\?\$]([^{}]+)\}", put, template))
 
 
 def sols_for_sparql(data, shape, sc, focus):
